@@ -202,6 +202,11 @@ class FormatterFactory:
             #
             raise ValueError('%s formats cannot use positional placeholders')
 
+        # The formatter class validates the format when instantiated;
+        # that has to be reported while the configuration is loaded,
+        # not when the logger is created.
+        self()
+
     def __call__(self):
         #
         # Need to determine if we should pass
